@@ -513,32 +513,7 @@ impl CertificateParams {
 		// as critical if subject is empty.
 		let critical = self.distinguished_name.entries.is_empty();
 		write_x509_extension(writer, oid::SUBJECT_ALT_NAME, critical, |writer| {
-			writer.write_sequence(|writer| {
-				for san in self.subject_alt_names.iter() {
-					writer.next().write_tagged_implicit(
-						Tag::context(san.tag()),
-						|writer| match san {
-							SanType::Rfc822Name(name)
-							| SanType::DnsName(name)
-							| SanType::URI(name) => writer.write_ia5_string(name.as_str()),
-							SanType::IpAddress(IpAddr::V4(addr)) => {
-								writer.write_bytes(&addr.octets())
-							},
-							SanType::IpAddress(IpAddr::V6(addr)) => {
-								writer.write_bytes(&addr.octets())
-							},
-							SanType::OtherName((oid, value)) => {
-								// otherName SEQUENCE { OID, [0] explicit any defined by oid }
-								// https://datatracker.ietf.org/doc/html/rfc5280#page-38
-								writer.write_sequence(|writer| {
-									writer.next().write_oid(&ObjectIdentifier::from_slice(oid));
-									value.write_der(writer.next());
-								});
-							},
-						},
-					);
-				}
-			});
+			write_general_names(&self.subject_alt_names, writer)
 		});
 	}
 
@@ -894,6 +869,32 @@ impl AsRef<CertificateParams> for CertificateParams {
 	fn as_ref(&self) -> &CertificateParams {
 		self
 	}
+}
+
+/// Write the GeneralNames SEQUENCE of a subject alternative name extension.
+pub(crate) fn write_general_names(names: &[SanType], writer: DERWriter) {
+	writer.write_sequence(|writer| {
+		for san in names.iter() {
+			writer.next().write_tagged_implicit(
+				Tag::context(san.tag()),
+				|writer| match san {
+					SanType::Rfc822Name(name) | SanType::DnsName(name) | SanType::URI(name) => {
+						writer.write_ia5_string(name.as_str())
+					},
+					SanType::IpAddress(IpAddr::V4(addr)) => writer.write_bytes(&addr.octets()),
+					SanType::IpAddress(IpAddr::V6(addr)) => writer.write_bytes(&addr.octets()),
+					SanType::OtherName((oid, value)) => {
+						// otherName SEQUENCE { OID, [0] explicit any defined by oid }
+						// https://datatracker.ietf.org/doc/html/rfc5280#page-38
+						writer.write_sequence(|writer| {
+							writer.next().write_oid(&ObjectIdentifier::from_slice(oid));
+							value.write_der(writer.next());
+						});
+					},
+				},
+			);
+		}
+	});
 }
 
 /// Write the KeyUsage BIT STRING for the given usages.
